@@ -1,7 +1,7 @@
 CONSTANTS
   NH = 3
   MaxBufs = 4
-  Statics <- cStatics
+  Statics <- cStatics3
   OpKinds <- cOpsSim
   StrArgs <- cStrS3
   CharArgs <- cChars
